@@ -184,6 +184,8 @@ def perform(spec):
     """spec: dict(api, data, data_format, shapes, shapes_format, ont, options). Graph arguments are objects or text."""
     import pyshacl
     kw = dict(spec["options"])
+    if "ont_graph_url" in kw:
+        kw["ont_graph"] = kw.pop("ont_graph_url")
     if spec.get("data_format"):
         kw["data_graph_format"] = spec["data_format"]
     if spec.get("shapes_format"):
@@ -327,6 +329,21 @@ def gen_themed(rng, theme):
                 ops.append(("realloc", "S0", "shapes", SHAPES["pattern"].replace('sh:flags "i"', rng.choice(['', 'sh:flags "x"', 'sh:flags "i"']).strip() or 'sh:minLength 1')))
             ops += maybe_fail() if rng.random() < 0.2 else []
             ops.append(plain() if rng.random() < 0.7 else ("call", "validate", ("slot", "D0"), ("text", PFX + SHAPES["pattern"].replace(' ; sh:flags "i"', "")), None, {}, None))
+    elif theme == "baked":
+        # documents that ship with pySHACL (loaded from its own copies, no network): a call that expands one of them
+        # (inference, rules, ontology mix-in) must not leave the expansion behind for the next call
+        url = rng.choice(["http://www.w3.org/ns/shacl", "http://www.w3.org/ns/shacl.ttl", "http://www.w3.org/ns/shacl-shacl"])
+        small = ("ex:BS a sh:NodeShape ; sh:targetSubjectsOf rdf:type ; sh:property [ sh:path rdf:type ; sh:maxCount 1 ] .\n"
+                 "ex:BR a sh:NodeShape ; sh:targetClass owl:Ontology ; sh:rule [ a sh:TripleRule ; sh:subject sh:this ; sh:predicate rdf:type ; sh:object rdfs:Class ] .")
+        ops.append(("alloc", "S0", "shapes", "@prefix rdf: <http://www.w3.org/1999/02/22-rdf-syntax-ns#> .\n" + small))
+        seq = [("call", "validate", ("url", url), ("slot", "S0"), None, {"inference": "rdfs"}, None),
+               ("call", "validate", ("url", url), ("slot", "S0"), None, {"advanced": True}, None),
+               ("call", "rules", ("url", url), ("slot", "S0"), None, {}, None),
+               ("call", "validate", ("slot", "D0"), ("slot", "S0"), None, {"ont_graph_url": url, "inference": "rdfs"}, None)]
+        ops.append(rng.choice(seq))
+        if rng.random() < 0.5:
+            ops.append(rng.choice(seq))
+        ops.append(("call", "validate", ("url", url), ("slot", "S0"), None, {}, None))
     elif theme == "imports":
         # documents that owl:import one another, loaded with do_owl_imports: what one call imported must not be
         # remembered by the next (a document that was an importer before is imported again)
@@ -358,7 +375,7 @@ def gen_themed(rng, theme):
     return ops
 
 
-THEMES = ["stale_data", "stale_shapes", "stale_validator", "reuse", "globals", "modes", "imports", "pattern", "mixed", "mixed"]
+THEMES = ["stale_data", "stale_shapes", "stale_validator", "reuse", "globals", "modes", "imports", "pattern", "baked", "mixed", "mixed"]
 
 
 def gen_history(seed, index):
